@@ -493,6 +493,7 @@ func (g *genSession) genDatagram(r *rand.Rand, cfg genCfg, first bool) dgram {
 	hdr, hdrTxt := p.header(r, ver)
 	msg := hdr
 	var recs []string
+	longPad := 0 // longest set padding of more than 4 octets in this datagram (names a failure: K3)
 	ns := 1 + r.Intn(4)
 	// templates announced in this datagram take effect for later sets of the same datagram
 	for i := 0; i < ns; i++ {
@@ -580,12 +581,24 @@ func (g *genSession) genDatagram(r *rand.Rand, cfg genCfg, first bool) dgram {
 			if !okSet {
 				wf = false
 			}
-			pad := r.Intn(4)
+			// RFC 7011 §3.3.1 (and the 4-octet alignment of RFC 3954): set padding is shorter than the shortest
+			// record the template can describe; 8-octet alignment gives up to 7 octets
+			maxPad := min(minRecLen(p, t)-1, 7)
+			if maxPad < 0 {
+				maxPad = 0
+			}
+			pad := r.Intn(min(maxPad, 3) + 1)
+			if r.Intn(3) == 0 {
+				pad = r.Intn(maxPad + 1)
+			}
 			if !cfg.wfOnly && r.Intn(10) == 0 {
-				pad = r.Intn(8)
-				if pad > 3 {
-					wf = false
+				pad = r.Intn(12)
+				if pad > maxPad {
+					wf = false // as long as a record: not padding
 				}
+			}
+			if pad > 4 && pad > longPad {
+				longPad = pad
 			}
 			body = append(body, make([]byte, pad)...)
 			msg = append(msg, p.set(r, cfg, t.id, body, &wf)...)
@@ -619,6 +632,10 @@ func (g *genSession) genDatagram(r *rand.Rand, cfg genCfg, first bool) dgram {
 	d := dgram{addr: addr, bytes: msg, wf: wf}
 	if wf {
 		d.expect = "msg " + hdrTxt + " errs= recs=" + strings.Join(recs, "")
+		if longPad > 0 {
+			// "K3 <n> <expected line>": the full expected decode is checked; the tag only names the failure
+			d.expect = fmt.Sprintf("K3 %d %s", longPad, d.expect)
+		}
 	}
 	return d
 }
@@ -825,17 +842,22 @@ func (p *flowProto) runDecode(st *state, line, expect string) (string, string) {
 		verdict = fmt.Sprintf("fail:records %d records from %d octets", out.nrec, len(dg))
 	case ms1.TotalAlloc-ms0.TotalAlloc > allocBound(len(dg), maxPrev):
 		verdict = fmt.Sprintf("fail:alloc %d bytes allocated for a %d-octet datagram (bound %d)", ms1.TotalAlloc-ms0.TotalAlloc, len(dg), allocBound(len(dg), maxPrev))
-	case strings.HasPrefix(expect, "K2 ") && ln != expect[5:]:
-		// witness of finding K2: "K2 <n> <expected line>", n = octets per record (<= 4). The finding is named only
-		// when the harness has itself checked that what is missing is exactly a tail of such short records.
+	case (strings.HasPrefix(expect, "K2 ") || strings.HasPrefix(expect, "K3 ")) && len(expect) > 5 && ln != expect[5:]:
+		// "K2 <n> <expected line>", n = octets per record (<= 4): witness of finding K2. "K3 <n> <expected line>",
+		// n = octets of set padding (5..7, shorter than the shortest record). The expected line is checked in full; the
+		// tag names the failure, and only when the harness has itself checked that the difference is of that kind:
+		// K2 = what is missing is exactly a tail of records; K3 = the whole message was lost with a short read.
 		exp := expect[5:]
 		n := int(expect[3] - '0')
-		if n >= 1 && n <= 4 && strings.HasPrefix(exp, ln) && len(ln) < len(exp) && strings.HasPrefix(exp[len(ln):], "[") && !strings.HasSuffix(ln, "recs=") || n >= 1 && n <= 4 && strings.HasPrefix(exp, ln) && strings.HasSuffix(ln, "recs=") {
+		switch {
+		case expect[1] == '2' && n >= 1 && n <= 4 && strings.HasPrefix(exp, ln) && (len(ln) < len(exp) && strings.HasPrefix(exp[len(ln):], "[") || strings.HasSuffix(ln, "recs=")):
 			verdict = fmt.Sprintf("fail:short-record data records of %d octets at the end of a set were taken for padding and dropped: want %s got %s", n, clip(exp, 200), clip(ln, 200))
-		} else {
+		case expect[1] == '3' && n >= 5 && n <= 9 && ln == "nil short":
+			verdict = fmt.Sprintf("fail:long-padding %d octets of set padding (shorter than the shortest record of the template) were read as a data record and the whole message was lost: want %s got %s", n, clip(exp, 300), clip(ln, 200))
+		default:
 			verdict = "fail:roundtrip decoded message differs from the abstract message: want " + clip(exp, 400) + " got " + clip(ln, 400)
 		}
-	case strings.HasPrefix(expect, "K2 "):
+	case strings.HasPrefix(expect, "K2 ") || strings.HasPrefix(expect, "K3 "):
 	case expect != "" && expect != "-" && ln != expect:
 		verdict = "fail:roundtrip decoded message differs from the abstract message: want " + clip(expect, 400) + " got " + clip(ln, 400)
 	}
